@@ -947,6 +947,11 @@ func (e *Env) rangeNext(fr *Frame, x *ssa.Next, st *State) Value {
 	kq := "|$k|"
 	e.assume(mkImp(mkAnd(st.pc, mkNot(okv)), fmt.Sprintf("(forall ((%s %s)) (! (=> (and (select %s %s) (select (select %s %s) %s)) (select %s %s)) :pattern ((select %s %s))))",
 		kq, it.ks, it.dom0, kq, dom, it.m.Ref, kq, vis, kq, vis, kq)))
+	// a non-empty map has a member (witness constant): together with the completeness fact
+	// above, a loop over an unmodified non-empty map has visited at least one key at the end
+	wk := e.mapKeyTerm(mt, e.freshValue(mt.Key(), "rangewit"))
+	e.assume(mkImp(mkAnd(st.pc, mkNot(okv), sx(">", e.mapLen(st, it.m), "0")),
+		mkAnd(mkSelect(mkSelect(dom, it.m.Ref), wk), mkImp(mkSelect(it.dom0, wk), mkSelect(vis, wk)))))
 	st.heap[it.vis] = e.maybeNameForce(mkIte(okv, mkStore(vis, k, tTrue), vis), srt, "vis")
 	e.noteWrite(it.vis, k)
 	e.trust("map iteration: arbitrary order; each present, not yet visited key once; complete over the keys present from start to end")
